@@ -83,9 +83,16 @@ type Scenario struct {
 	ReadFault *ReadFault `json:"read_fault,omitempty"`
 	AppClose  string     `json:"app_close,omitempty"`
 	CloseAt   int        `json:"close_at,omitempty"`
-	Items     []string   `json:"items"`            // raw pieces of the peer's input, in order; the input ends with EOF
-	Chunks    []int      `json:"chunks,omitempty"` // read sizes handed to the library, cycled; empty = unlimited
-	Programs  []Prog     `json:"programs"`         // invocation i runs Programs[i mod len]
+	// Deadline: the application calls Session.SetCloseDeadline with a time an
+	// hour away (it never passes): "" (never) | before (before Serve starts) |
+	// in-handler (at the start of invocation DeadlineAt) | goroutine (on its own
+	// goroutine started there) | twice (before Serve and again in the handler).
+	// Nothing about the elements that follow may change.
+	Deadline   string   `json:"deadline,omitempty"`
+	DeadlineAt int      `json:"deadline_at,omitempty"`
+	Items      []string `json:"items"`            // raw pieces of the peer's input, in order; the input ends with EOF
+	Chunks     []int    `json:"chunks,omitempty"` // read sizes handed to the library, cycled; empty = unlimited
+	Programs   []Prog   `json:"programs"`         // invocation i runs Programs[i mod len]
 }
 
 // OwnReq describes the application's own pending request.
@@ -214,7 +221,14 @@ func (g *gen) fromAttr() string {
 func (g *gen) child(idx, depth int) string {
 	r := g.r
 	var name, ns string
-	switch r.Intn(8) {
+	switch r.Intn(9) {
+	case 8:
+		// local names of stream-level elements, outside the stream namespace
+		// (their own, or the one they inherit): ordinary content
+		name = pick(r, "stream", "error", "features", "stream")
+		if r.Intn(2) == 0 {
+			ns = pick(r, "urn:c08:x", "urn:example:media")
+		}
 	case 0:
 		name = "message"
 	case 1:
@@ -279,7 +293,7 @@ func (g *gen) topOpen(idx int) (open, name string) {
 	case x < 14:
 		name = "presence"
 	case x < 16:
-		name, ns = pick(r, "foo", "x", "features"), "urn:c08:top"
+		name, ns = pick(r, "foo", "x", "features", "stream", "error"), "urn:c08:top"
 	case x < 17:
 		name, ns = pick(r, "iq", "message"), "urn:c08:top"
 	case x < 18:
@@ -292,7 +306,7 @@ func (g *gen) topOpen(idx int) (open, name string) {
 	case x < 19:
 		name, ns = pick(r, "message", "iq"), g.o.NS()
 	default:
-		name = pick(r, "foo", "body", "error")
+		name = pick(r, "foo", "body", "error", "stream")
 	}
 	var attrs []string
 	attrs = append(attrs, fmt.Sprintf(" e='%d'", idx))
@@ -612,6 +626,10 @@ func generate(r *rand.Rand) Scenario {
 		sc.AppClose = pick(r, "before", "in-handler", "in-handler", "goroutine")
 		sc.CloseAt = r.Intn(3)
 	}
+	if r.Intn(8) == 0 {
+		sc.Deadline = pick(r, "before", "in-handler", "in-handler", "goroutine", "twice")
+		sc.DeadlineAt = r.Intn(3)
+	}
 	if sc.Addr == "" && r.Intn(10) == 0 {
 		sc.WSFlag = true
 		// framing-namespace elements: a restart (<open/>) or any other one, at the
@@ -827,13 +845,14 @@ type invocation struct {
 var errCustom = errors.New("c08: handler program error")
 
 type recorder struct {
-	sc       Scenario
-	invs     []*invocation
-	progress atomic.Int64
-	s        *xmpp.Session
-	closedAt int           // invocation index from which the output stream is (being) closed; -1 = never
-	closeRet chan struct{} // closed when an asynchronous Session.Close has returned
-	rq       *requester    // the application's own request, if any
+	sc        Scenario
+	invs      []*invocation
+	progress  atomic.Int64
+	s         *xmpp.Session
+	closedAt  int           // invocation index from which the output stream is (being) closed; -1 = never
+	closeRet  chan struct{} // closed when an asynchronous Session.Close has returned
+	rq        *requester    // the application's own request, if any
+	deadlines int           // calls of SetCloseDeadline made (or started) so far
 }
 
 // requester is the application goroutine with a request of its own.
@@ -920,6 +939,16 @@ func (rc *recorder) HandleXMPP(rw xmlstream.TokenReadEncoder, start *xml.StartEl
 	rc.progress.Add(1)
 	if rc.rq != nil && rc.rq.respOpen.Load() {
 		inv.WhileRespOpen = true
+	}
+	if i == rc.sc.DeadlineAt {
+		switch rc.sc.Deadline {
+		case "in-handler", "twice":
+			rc.s.SetCloseDeadline(time.Now().Add(time.Hour))
+			rc.deadlines++
+		case "goroutine":
+			rc.deadlines++
+			go rc.s.SetCloseDeadline(time.Now().Add(time.Hour))
+		}
 	}
 	if rc.closedAt < 0 && i == rc.sc.CloseAt {
 		switch rc.sc.AppClose {
@@ -1235,6 +1264,10 @@ func Run(c *core.Case, sc Scenario) {
 	if sc.AppClose == "before" {
 		rec.appClose(0, false)
 	}
+	if sc.Deadline == "before" || sc.Deadline == "twice" {
+		ev.S.SetCloseDeadline(time.Now().Add(time.Hour))
+		rec.deadlines++
+	}
 	if len(sc.Chunks) > 0 {
 		k := 0
 		ev.Lib.SetChunker(func(avail int) int {
@@ -1384,6 +1417,12 @@ func Run(c *core.Case, sc Scenario) {
 	if rec.closeRet != nil && !stall.WaitDone(rec.closeRet, 20*time.Second) {
 		c.Inconclusive("Session.Close, called on its own goroutine during invocation %d, did not return although Serve did", rec.closedAt)
 		return
+	}
+	if rec.deadlines > 0 {
+		c.Count("close_deadline_set_"+sc.Deadline, 1)
+		if n := len(rec.invs) - 1 - sc.DeadlineAt; n > 0 || (sc.Deadline == "before" && len(rec.invs) > 0) {
+			c.Count("invocations_after_a_close_deadline_was_set", 1)
+		}
 	}
 	if sc.AppClose != "" && rec.closedAt >= 0 {
 		c.Count("app_close_"+sc.AppClose, 1)
@@ -1808,6 +1847,7 @@ func Prop() *core.Prop {
 			"read_fault_inside_element", "read_fault_after_keepalive", "read_fault_between_elements", "handler_returned_error_wrapping_eof",
 			"outcome_stream_error_with_foreign_child", "outcome_stream_error_with_several_texts",
 			"handler_returned_bare_eof", "bare_eof_with_element_partly_unread", "session_carried_on_after_handler_eof",
+			"close_deadline_set_before", "close_deadline_set_in-handler", "close_deadline_set_goroutine", "close_deadline_set_twice", "invocations_after_a_close_deadline_was_set",
 			"app_close_before", "app_close_in-handler", "app_close_goroutine", "invocations_after_app_close",
 			"unfinished_element_with_write_after_app_close", "outcome_closing_tag_after_app_close",
 			"addr_update_neg", "addr_update_ready", "addr_bind", "bare_address_changed_before_serve",
